@@ -37,7 +37,7 @@ ANCHORS = [
     ('pjrpc/server/dispatcher.py', 'Dispatcher.dispatch'), ('pjrpc/server/dispatcher.py', 'AsyncDispatcher.dispatch'),
 ]
 MW_KINDS = ['P', 'S', 'Q', 'R', 'A']     # A = answers every request itself, notifications included
-TABLES = ['none', 'generic', 'per-code', 'both', 'two-per-key', 'replace-generic', 'replace-per-code', 'annotate']
+TABLES = ['none', 'generic', 'per-code', 'both', 'two-per-key', 'replace-generic', 'replace-per-code', 'annotate', 'same-callable']
 FLOORS = {'*': {**{f'mw:{k}:depth{d}': 20 for k in MW_KINDS for d in range(3)},
                 **{f'table:{t}:failing': 20 for t in TABLES if t != 'none'},
                 **{f'table:{t}:batch': 5 for t in TABLES}, **{f'table:{t}:notification': 5 for t in TABLES},
@@ -121,6 +121,13 @@ def make_handler(key, j, action, flavour):
     return awork
 
 
+def make_handlers(tspec, flavour):
+    """the error_handlers table of a case; the action 'shared' stands for ONE callable object listed at several places"""
+    shared = make_handler('shared', 0, 'annotate', flavour)
+    return {key: [shared if a == 'shared' else make_handler(key, j, a, flavour) for j, a in enumerate(actions)]
+            for key, actions in tspec.items()}
+
+
 RAISED_CODES = [-32601, -32602, -32000, 1234, world.TYPED_CODE]
 
 
@@ -141,6 +148,9 @@ def table_spec(name):
         return {None: ['replace'], 5000: ['annotate'], **{c: ['annotate'] for c in RAISED_CODES}}
     if name == 'replace-per-code':
         return {c: ['replace', 'annotate'] for c in RAISED_CODES} | {5100: ['identity'], 5101: ['identity']}
+    if name == 'same-callable':
+        # one handler object listed generically and (twice) per code: every listed entry applies, in list order
+        return {None: ['shared'], **{c: ['annotate', 'shared', 'shared'] for c in RAISED_CODES}}
     return {None: ['annotate'], **{c: ['annotate', 'annotate'] for c in RAISED_CODES}}
 
 
@@ -217,6 +227,8 @@ def expected_element(el, stack, table, ctx_token):
             chain = [(None, j, a) for j, a in enumerate(table.get(None, []))] + \
                     [(raised_code, j, a) for j, a in enumerate(table.get(raised_code, []))]
             for key, j, action in chain:
+                if action == 'shared':
+                    key, j, action = 'shared', 0, 'annotate'
                 events.append(('handler', key, j, t, err[0]))
                 err = apply_action(action, key, j, err)
             if not is_notif:
@@ -234,7 +246,7 @@ def run_case(ctx, stack, table, doc_name, flavour):
     is_async = flavour != 'sync'
     tspec = table_spec(table)
     mws = [make_mw(k, i, flavour) for i, k in enumerate(stack)]
-    handlers = {key: [make_handler(key, j, a, flavour) for j, a in enumerate(actions)] for key, actions in tspec.items()}
+    handlers = make_handlers(tspec, flavour)
     extra = {'concurrent_batch': False} if flavour == 'async-sequential' else {}
     w = world.World(is_async, None, middlewares=mws, error_handlers=handlers, **extra)
     doc = DOCS[doc_name]
